@@ -80,6 +80,18 @@ Theorem C01_same_padding_3d (d0 d1 d2 k0 k1 k2 : Z) :
   (unfold3d_pad_H_left d0 d1 d2 k0 k1 k2 + unfold3d_pad_H_right d0 d1 d2 k0 k1 k2 = d1 * (k1 - 1))%Z /\
   (unfold3d_pad_W_left d0 d1 d2 k0 k1 k2 + unfold3d_pad_W_right d0 d1 d2 k0 k1 k2 = d2 * (k2 - 1))%Z.
 Proof. unfold unfold3d_pad_D_left, unfold3d_pad_H_left, unfold3d_pad_W_left, unfold3d_pad_D_right, unfold3d_pad_H_right, unfold3d_pad_W_right. repeat split; lia. Qed.
+(* unfold2d's sliding-window view (as_strided with the GENERATED strides): entry (kh, kw, ph, pw) of the view sits at the memory offset of
+   location (ph * s0 + kh * d0, pw * s1 + kw * d1) of the padded input -- the tap the gather-layer model calls `src` -- whatever the strides
+   sH, sW of the padded input are (contiguous, channels_last, transposed, ...) *)
+Theorem C01_unfold2d_view_reads_taps (sH sW Wpad d0 d1 s0 s1 kh kw ph pw : Z) :
+  let '(a, b, c, d) := unfold2d_view_strides sH sW Wpad d0 d1 s0 s1 in
+  (kh * a + kw * b + ph * c + pw * d = (ph * s0 + kh * d0) * sH + (pw * s1 + kw * d1) * sW)%Z.
+Proof. unfold unfold2d_view_strides. ring. Qed.
+(* the strides hard-coded before the repair (Wpad * d0, d1, Wpad * s0, s1) read other locations as soon as the input is not contiguous *)
+Theorem C01_unfold2d_contiguous_strides_refuted :
+  exists sH sW Wpad d0 d1 s0 s1 kh kw ph pw : Z,
+    (kh * (Wpad * d0) + kw * d1 + ph * (Wpad * s0) + pw * s1 <> (ph * s0 + kh * d0) * sH + (pw * s1 + kw * d1) * sW)%Z.
+Proof. exists 1%Z, 3%Z, 4%Z, 1%Z, 1%Z, 1%Z, 1%Z, 0%Z, 1%Z, 0%Z, 0%Z. vm_compute. discriminate. Qed.
 (* the registered samplers use exactly these formulas (table generated from the sources) *)
 Theorem C01_sampler_table_covers :
   forallb (fun r => match snd r with FLinW | FLinB | FConvW | FConvB | FEmbScatterPadZero | FEmbBagSumMean | FNormW | FNormB | FSeqBiasLast => true end) sampler_table = true /\ Nat.leb 1 (length sampler_table) = true.
@@ -103,4 +115,6 @@ Print Assumptions C01_gs_sum_is_batch_grad.
 Print Assumptions C01_uses_then_promote.
 Print Assumptions C01_same_padding_2d.
 Print Assumptions C01_same_padding_3d.
+Print Assumptions C01_unfold2d_view_reads_taps.
+Print Assumptions C01_unfold2d_contiguous_strides_refuted.
 Print Assumptions C01_sampler_table_covers.
